@@ -29,6 +29,7 @@ PROPERTY = 'C16'
 ANSWERS = ['now', 'late', 'late-split', 'garbage-after', 'silent', 'close-before', 'close-after', 'late-short', 'trickle']
 TIMEOUT = 2.0
 POLLINTERVAL = 10.0
+BURSTS = [5, 8185, 8190, 8195, 16380, 16390, 24580, 40000]      # bytes of stale input (5-byte lines): around multiples of the receive size
 
 CASES = {
     'two-comm': [[['comm', 'A1']], [['comm', 'B1']]],
@@ -43,6 +44,8 @@ CASES = {
     # after the reconnect interval: the last one must succeed again when the device is reachable
     'heal-seq': [[['comm', 'A1'], ['sleep', 1.0], ['write', 'W1'], ['sleep', 1.0], ['comm', 'A2'], ['sleep', 11.0], ['comm', 'A3'],
                   ['sleep', 11.0], ['comm', 'A4']]],
+    # stale input of every size around the receive buffer of the connection (8192 bytes) behind a reply
+    'stale-burst': [[['comm', 'A1'], ['sleep', 0.5], ['comm', 'A2'], ['sleep', 0.5], ['comm', 'A3']]],
     'three': [[['comm', 'A1']], [['multi', [['M1', True, 0.2], ['M2', False, 0], ['M3', True, 0]]]], [['comm', 'C1']]],
 }
 
@@ -109,6 +112,15 @@ class Device:
         elif answer == 'garbage-after':
             deliver(rep)
             deliver(b'R:JUNK' + w.eol)      # unsolicited line right behind the reply: it is there before the next command
+        elif answer.startswith('garbage-burst:'):
+            # the reply, then n bytes of unsolicited lines right behind it (a device streaming status lines): all of it is
+            # there before the next command is sent - however much it is, none of it may be taken for a later reply
+            deliver(rep)
+            n, k, junk = int(answer.split(':')[1]), 0, b''
+            while len(junk) < n:
+                junk += b'R:J' + bytes([97 + k % 26]) + w.eol
+                k += 1
+            deliver(junk)
         elif answer == 'silent':
             pass
         elif answer == 'trickle':
@@ -401,8 +413,12 @@ def stale_class(world, cmd, rep):
 def cases(tier):
     quick = tier == 'quick'
     res = []
+    for kind in (('string', 'bytes') if quick else ('string', 'bytes', 'bytesvar')):
+        for n in BURSTS:
+            res.append({'name': f'stale-burst-{n}/{kind}', 'kind': kind, 'threads': CASES['stale-burst'], 'bound': 0, 'dev': 1, 'total': None,
+                        'nanswers': len(ANSWERS), 'scripted': {'A1': f'garbage-burst:{n}'}})
     for name, threads in CASES.items():
-        if quick and name == 'three':
+        if quick and name == 'three' or name == 'stale-burst':
             continue
         seq = name in ('faults-seq', 'heal-seq')
         res.append({'name': f'{name}/string', 'kind': 'string', 'threads': threads,
